@@ -573,7 +573,7 @@ struct Init {
                 RunResult r = run_program(q, o);
                 if (!r.violations.empty()) return r;
                 for (auto &f : r.faults) {
-                    if (!f.fired || f.kind != sim::F_IO_DATA) continue;
+                    if (!f.fired || (f.kind != sim::F_IO_DATA && f.kind != sim::F_IO_ZERO)) continue;
                     if (f.op < 0 || f.op >= (int)q.ops.size()) continue;
                     const OpResult &orr = r.rcs[f.rank][f.op];
                     bool reported = orr.executed && orr.rc != NC_NOERR;
@@ -592,7 +592,8 @@ struct Init {
                 if (!br.violations.empty()) return out;
                 for (auto &c : br.iocalls) {
                     if (c.op < 0 || c.op >= (int)base.ops.size()) continue;   // epilogue closes are not part of the program
-                    for (int cls : classes) { Program v = base; sim::Fault f; f.kind = sim::F_IO_DATA; f.rank = c.rank; f.op = c.op; f.nth = c.nth; f.errclass = cls; v.faults.push_back(f); out.push_back(v); }
+                    if (c.bytes == 0) continue;   // zero-byte participation in a collective transfer is not faulted (stated assumption: the unchanged library ignores its result at several sites, e.g. ncmpio__enddef, ncmpio_write_numrecs, ncmpio_write_header; DESIGN 9.3)
+                    for (int cls : classes) { if (c.bytes == 0 && cls != MPI_ERR_IO && cls != MPI_ERR_NO_SPACE) continue; Program v = base; sim::Fault f; f.kind = c.bytes == 0 ? sim::F_IO_ZERO : sim::F_IO_DATA; f.rank = c.rank; f.op = c.op; f.nth = c.nth; f.errclass = cls; v.faults.push_back(f); out.push_back(v); }
                 }
                 return out;
             };
